@@ -146,3 +146,5 @@ def run(F, rep, tier):
                 nd.append((s, g))
     rep.check(not nd, "C19-R4", "kernels-pure" if not nd else "kernel-nondeterminism:%s" % ",".join(sorted({re.sub(r"^<(.*?) as .*", r"\1", a).split("::")[-1] for a, _ in nd})),
               "a solve body calls a clock / random / process-state source: %s" % nd[:4])
+    from rules.loopshape import c19_step_nesting
+    c19_step_nesting(F, rep)
